@@ -52,7 +52,11 @@ def modutf7_encode(data: str) -> bytes:
                 encoded = _modified_b64encode(to_encode)
                 ret.append(0x26)
                 ret.extend(encoded)
-                ret.extend((0x2d, charpoint))
+                ret.append(0x2d)
+                if charpoint == 0x26:
+                    ret.extend(b'&-')
+                else:
+                    ret.append(charpoint)
                 is_usascii = True
     if not is_usascii:
         to_encode = data[encode_start:]
